@@ -46,7 +46,7 @@ Proof.
   assert (P : bool_enc bs = 16 :: be 4 (len bs) ++ pack_bits (length bs) bs) by (rewrite E; reflexivity).
   rewrite P. unfold bool_dec.
   rewrite get_be_app by (rewrite pow256_4; pose proof (len_nonneg bs); lia).
-  change (16 / 16 =? 1) with true. cbv iota.
+  tagsimp. 
   destruct (pack_bits_spec (length bs) bs (le_n _)) as [pad EP]. rewrite EP.
   rewrite len_app. pose proof (len_nonneg pad).
   destruct (Z.ltb_spec (len bs + len pad) (len bs)); [lia|].
@@ -66,7 +66,7 @@ Section FrameProof.
     apply andb_true_iff in H. destruct H as [H Hl]. apply andb_true_iff in H. destruct H as [Ht Hp].
     unfold frame_enc. set (c := wc p) in *. cbn [app]. rewrite <- !app_assoc. unfold frame_dec.
     rewrite get_be_app by (rewrite pow256_4; pose proof (len_nonneg c); lia).
-    replace ((typ <=? 0) || (3 <=? typ)) with false by lia.
+    g_unfold. replace ((typ <=? 0) || (3 <=? typ)) with false by lia.
     rewrite len_app. pose proof (len_nonneg rest).
     destruct (Z.ltb_spec (len c + len rest) (len c)); [lia|].
     rewrite firstn_len_app, skipn_len_app by reflexivity.
@@ -84,7 +84,7 @@ Section FrameProof.
     - rewrite get_be_short; [reflexivity|]. rewrite firstn_length. lia.
     - rewrite firstn_app, be_length. rewrite (firstn_all2 (be 4 (len c))) by (rewrite be_length; lia).
       rewrite get_be_app by (rewrite pow256_4; pose proof (len_nonneg c); lia).
-      destruct ((typ <=? 0) || (3 <=? typ)); [reflexivity|].
+      destruct ((typ <=? g_wal_unknown) || (g_wal_end <=? typ)); [reflexivity|].
       assert (L : len (firstn (k - 4) c) < len c).
       { unfold len. rewrite firstn_length. lia. }
       destruct (Z.ltb_spec (len (firstn (k - 4) c)) (len c)); [reflexivity|lia].
